@@ -217,9 +217,13 @@ def check_crossimpl(facts):
     try_move_right/left) are written once per impl; for each pair and method the symbolic path summaries — canonical branch
     conditions, returned value, final value of the `pos` out-parameter — must be the same set. (Hoisting a sub-expression,
     flipping a comparison or reordering the arms of one copy does not change the summary; forgetting `*pos = start` in one
-    direction of one copy, or comparing the wrong window in one `cfg` arm, does.)"""
+    direction of one copy, or comparing the wrong window in one `cfg` arm, does.) One difference is part of the rule:
+    Utf16Input::subrange_eq additionally requires both ends of the compared window to be character boundaries
+    (`floor_char_boundary(x) == x`), answers false otherwise, and every accepting path has passed both tests."""
     r = RuleResult("CROSSIMPL", " ".join(check_crossimpl.__doc__.split()))
     n = 0
+    nb_paths = [0]
+    nb_bad = []
     for ia, ib in CROSS_PAIRS:
         for m in CROSS_METHODS:
             fa, fb = fname(facts, ia, m), fname(facts, ib, m)
@@ -241,6 +245,30 @@ def check_crossimpl(facts):
                         continue
                     cells = tuple(sorted((str(k), symex.show(v)) for k, v in p.cells.items()))
                     out.add((tuple((g, str(v)) for g, v in symex.cguards(p)), symex.show(p.ret) if p.ret is not None else None, cells))
+                if fn == fb and ib == "Utf16Input" and m == "subrange_eq":
+                    # UTF-16 only: a window that starts or ends inside a surrogate pair is not made of whole characters (a captured
+                    # lone surrogate equals, unit for unit, half of a pair). The boundary tests are the one permitted difference from
+                    # the UCS-2 sibling: paths rejected by them must answer false and are set aside, the tests themselves are
+                    # stripped from the accepting paths — which must have passed one for each end of the window.
+                    out2 = set()
+                    for item in out:
+                        if item[0] == "DIVERGES":
+                            out2.add(item)
+                            continue
+                        gs_, ret_, cells_ = item
+                        bg = [(g, v) for g, v in gs_ if "floor_char_boundary(" in g]
+                        rest = tuple((g, v) for g, v in gs_ if "floor_char_boundary(" not in g)
+                        if any(v == "False" for g, v in bg):
+                            if ret_ not in ("0", "false"):
+                                out2.add(item)   # a failed boundary test that does not answer false: left in, will not match the sibling
+                            continue
+                        if ret_ not in ("0", "false"):
+                            nb_paths[0] += 1
+                            if len({g for g, v in bg}) < 2:
+                                nb_bad.append("a path that can answer true passes %d boundary test(s) (both ends of the compared window "
+                                              "must be tested)" % len({g for g, v in bg}))
+                        out2.add((rest, ret_, cells_))
+                    out = out2
                 sums.append(out)
             if bad:
                 # panicking stubs (byte matching on UTF-16) are not comparable
@@ -258,5 +286,15 @@ def check_crossimpl(facts):
                 oa, ob = sorted(sums[0] - sums[1], key=str), sorted(sums[1] - sums[0], key=str)
                 r.fail(key, "the two indexers no longer behave alike in %s: only %s has %s; only %s has %s" % (
                     m, ia, str(oa[:1])[:260], ib, str(ob[:1])[:260]), facts.loc(fb))
+    if facts.config == "utf16" or fname(facts, "Utf16Input", "subrange_eq"):
+        key = "Utf16Input::subrange_eq compares whole characters only"
+        if nb_bad:
+            r.fail(key, nb_bad[0] + ": a backreference to a lone surrogate matches half of a surrogate pair and leaves the cursor inside it — "
+                                    "the next single-character loop backtracks past its minimum and reads before the start of the input",
+                   facts.loc(fname(facts, "Utf16Input", "subrange_eq")))
+        elif nb_paths[0]:
+            r.ok(key, "%d accepting paths, each behind a boundary test of both ends" % nb_paths[0])
+        else:
+            r.error("Utf16Input::subrange_eq: no accepting path found (anchor lost)")
     r.floor("method_pairs", n, 4)
     return r
